@@ -1021,12 +1021,16 @@ _G_R4.update({
     "HmacMac": T("TinkVerif.GlueTie", "hmacmac_ComputeMAC_tie hmacmac_VerifyMAC_tie"),
     "PrfSet": T("TinkVerif.GlueTie", "prfset_NewPRFSetWithConfig_tie prfset_all_built"),
     "KeyDerivers": T("TinkVerif.GlueTie", "keyderivers_hmacPRF_tie keyderivers_hkdfPRF_tie keyderivers_hmacPRF_read_error"),
+    "SlhAdrs": T("TinkVerif.GlueTie.SlhAdrs", "get_put get_put_after get_put_before setLayerAddress_eq setTreeAddress_eq setTypeAndClear_eq "
+                 "setKeyPairAddress_eq setChainAddress_eq setTreeHeight_eq setHashAddress_eq setTreeIndex_eq keyPairAddress_eq treeIndex_eq "
+                 "setters_preserve_length treeIndex_setTreeIndex keyPairAddress_setKeyPairAddress keyPairAddress_stable "
+                 "setTypeAndClear_reads compress_eq compress_length"),
 })
 for _p, _mods in (
         ("C01", ["FactoryAead", "HmacNew", "HmacMac"]), ("C02", ["FactoryAead", "KmsEnv", "Prefixmap"]), ("C03", ["FactoryVerify", "Pss"]), ("C04", ["FactoryMac", "HmacNew", "HmacMac"]),
         ("C05", ["FactoryAead", "FactoryDaead", "FactoryMac", "FactoryVerify", "FactoryHybrid", "Jwt", "JwtKid", "Prefixmap"]),
         ("C06", ["FactoryHybrid", "Ecies"]), ("C07", ["StreamNew"]), ("C08", ["FactoryDaead"]), ("C09", ["Jwt", "JwtKid"]),
-        ("C11", ["IdReq", "ManagerAdd"]), ("C15", ["HkdfPrf", "PrfSet"]), ("C17", ["DeriveKeyset", "KeyDerivers"]), ("C20", ["IdReq", "ManagerAdd"])):
+        ("C11", ["IdReq", "ManagerAdd"]), ("C15", ["HkdfPrf", "PrfSet"]), ("C16", ["SlhAdrs"]), ("C17", ["DeriveKeyset", "KeyDerivers"]), ("C20", ["IdReq", "ManagerAdd"])):
     PROPS[_p]["lean"] = PROPS[_p]["lean"] + [_GT + m for m in _mods]
     for m in _mods:
         PROPS[_p]["theorems"] = PROPS[_p]["theorems"] + [t for t in _G_R4[m] if t not in PROPS[_p]["theorems"]]
@@ -1037,6 +1041,8 @@ for _p, _mods in (
                                        " as a parameter, validateHeader / validateKIDInHeader tied to Model/Jwt; IdReq: IDRequirement of serializations,"
                                        " NewManagerFromHandle, keysetToEntries id requirement; StreamNew / HkdfPrf / HmacNew: constructor parameter checks"
                                        " and stored values in closed form; JwtKid: kid strategies of newFullVerifier / newFullSigner; ManagerAdd: whole"
-                                       " stateful Manager.Add; DeriveKeyset: the whole derivation loop; Pss / Ecies / KmsEnv: constructor and envelope glue).")
+                                       " stateful Manager.Add; DeriveKeyset: the whole derivation loop; Pss / Ecies / KmsEnv: constructor and envelope glue;"
+                                       " SlhAdrs: all eleven methods of slhdsa's *address — every setter is the FIPS 205 Table 1 field store, getters read"
+                                       " back, stores to other words leave the key-pair address intact, compress is the 22-byte ADRSc).")
 
 NOT_BUILT = {}
